@@ -94,6 +94,10 @@ func gobEncodeItem(it Item) ([]byte, error) {
 		}
 		return []byte{}, nil
 	}
+	if IsNil(it) {
+		// NOTE: the untyped nil and nil pointers to the vocabulary types encode to nothing
+		return []byte{}, nil
+	}
 	b := bytes.Buffer{}
 	var err error
 	if IsIRIs(it) {
